@@ -98,7 +98,9 @@ func (r *Runner) Build(order []int) *Obs {
 		switch r.W.Cfg.BuildMode {
 		case 1:
 			ctx, cancel := context.WithCancel(context.WithValue(context.Background(), ctxKeyT{-1}, "build"))
+			r.W.SetBuildCancel(cancel)
 			p, err = r.Coll.BuildWithContext(ctx)
+			r.W.SetBuildCancel(nil)
 			cancel() // the build is over: what the caller does with its context is no business of the provider's
 		case 2:
 			p, err = r.Coll.BuildWithOptions(&godi.ProviderOptions{BuildTimeout: 10 * time.Minute})
